@@ -43,7 +43,7 @@ void Kernel::reset(const Plan &p, KernelClient *c)
 	fs.clear();
 	for (auto &f : p.files) {
 		Inode in;
-		in.data = f.data; in.mtime = EPOCH_S + f.mtime; in.ro = f.ro; in.dir = f.dir;
+		in.data = f.data; in.mtime = EPOCH_S + f.mtime; in.ro = f.ro; in.dir = f.dir; in.link = f.link;
 		fs[f.path] = in;
 	}
 	fds.assign(3, SFd());
@@ -177,8 +177,21 @@ int Kernel::tick(int seam, const Fault **fo)
 	return eintr;
 }
 
-void Kernel::ext_write(const std::string &path, const std::string &data, long mtime_delta)
+std::string Kernel::real(const std::string &path) const
 {
+	std::string p = path;
+	for (int i = 0; i < 8; i++) {
+		auto it = fs.find(p);
+		if (it == fs.end() || it->second.link.empty()) break;
+		p = it->second.link;
+	}
+	return p;
+}
+
+void Kernel::ext_write(const std::string &path0, const std::string &data, long mtime_delta)
+{
+	// someone else writing through a link changes the file behind it, not the link
+	std::string path = real(path0);
 	Inode &in = fs[path];
 	disk_used += (long) data.size() - (long) in.data.size();
 	in.data = data;
@@ -465,6 +478,7 @@ int sim_open(const char *path, int flags, ...)
 	K.tick(S_FOPEN, &f);
 	std::string p = path ? path : "";
 	K.opens.push_back(p);
+	if (K.real(p) != p) { K.probe("open_through_symlink"); p = K.real(p); }
 	int acc = flags & O_ACCMODE;
 	if (f && f->effect == "err") {
 		K.fired["fopen:err"]++;
@@ -732,11 +746,12 @@ long sim_write(int fd, const void *buf, unsigned long n)
 	return -1;
 }
 
-int sim_stat(const char *path, struct stat *st)
+static int stat_impl(const char *path, struct stat *st, bool follow)
 {
 	const Fault *f;
 	K.tick(S_STAT, &f);
 	std::string p = path ? path : "";
+	if (follow && K.real(p) != p) { K.probe("stat_through_symlink"); p = K.real(p); }
 	auto it = K.fs.find(p);
 	if (f && f->effect == "err") { K.fired["stat:err"]++; K.ev("stat", -f->err, fnv_str(p)); errno = f->err; return -1; }
 	if (it == K.fs.end()) { K.ev("stat", -ENOENT, fnv_str(p)); errno = ENOENT; return -1; }
@@ -744,9 +759,12 @@ int sim_stat(const char *path, struct stat *st)
 	st->st_mtime = it->second.mtime;
 	st->st_size = (off_t) it->second.data.size();
 	st->st_mode = it->second.dir ? (S_IFDIR | 0755) : (S_IFREG | (it->second.ro ? 0444 : 0644));
-	K.ev("stat", 0, fnv_str(p) ^ (unsigned long long) it->second.mtime);
+	if (!it->second.link.empty()) { st->st_mode = S_IFLNK | 0777; st->st_size = (off_t) it->second.link.size(); }
+	K.ev(follow ? "stat" : "lstat", 0, fnv_str(p) ^ (unsigned long long) it->second.mtime);
 	return 0;
 }
+
+int sim_stat(const char *path, struct stat *st) { return stat_impl(path, st, true); }
 
 int sim_fstat(int fd, struct stat *st)
 {
@@ -758,7 +776,7 @@ int sim_fstat(int fd, struct stat *st)
 int sim_access(const char *path, int mode)
 {
 	K.tick(S_ACCESS, nullptr);
-	std::string p = path ? path : "";
+	std::string p = K.real(path ? path : "");
 	auto it = K.fs.find(p);
 	int ok = it != K.fs.end() && !((mode & W_OK) && it->second.ro);
 	K.ev("access", ok ? 0 : -ENOENT, fnv_str(p));
@@ -1284,7 +1302,7 @@ int sim_unmodelled_sleep(void) { return unmodelled("sleep"); }
 // aliases: objcopy wants one target per renamed symbol
 int sim_open64(const char *p, int fl, int mode) { return sim_open(p, fl, mode); }
 int sim_stat64(const char *p, struct stat *st) { return sim_stat(p, st); }
-int sim_lstat(const char *p, struct stat *st) { return sim_stat(p, st); }
+int sim_lstat(const char *p, struct stat *st) { return stat_impl(p, st, false); }
 int sim_ftruncate64(int fd, long len) { return sim_ftruncate(fd, len); }
 void sim__exit(int st) { sim_exit(st); }
 int sim_fcntl64(int fd, int cmd, long arg) { return sim_fcntl(fd, cmd, arg); }
